@@ -462,3 +462,69 @@ def r5(cx):
     if not empty:
         cx.violation(cb.fn, 'default-glossary', 'the default parser configuration is no longer the empty glossary '
                      '(FromStr implementations unwrap Rec values)', loc=cb.loc(cb.d))
+
+
+@RS.rule('C17.R1b', 'K-GUARD', 'the blank-ending-alias test is consulted whenever the other two position tests fail: no extra condition guards it')
+def r1b(cx):
+    F = cx.F
+    fn = [f for f in F.bodies if Q.re.search(r'parser::core::Parser::<.*>::substitute_alias$', f)]
+    cx.require(len(fn) == 1, 'Parser::substitute_alias not found')
+    body = F.bodies[fn[0]]
+    cx.fn(body.fn)
+    du = Q.DefUse(body)
+    sites = Q.find_calls(body, [Q.re.compile(r'::is_after_blank_ending_alias$')])
+    cx.require(len(sites) == 1, 'is_after_blank_ending_alias call not found in Parser::substitute_alias')
+    blk, t = sites[0]
+    allowed_calls = [Q.re.compile(r'::is_empty$'), Q.re.compile(r'::to_string_if_literal$'), Q.re.compile(r'::is_alias_for$'),
+                     Q.re.compile(r'::look_up$')]
+    for org, lab, edge in Q.dominating_conditions(F, body, du, blk):
+        desc = None
+        if org['k'] == 'call':
+            if any(Q.callee_is(org['t'], [p]) for p in allowed_calls):
+                desc = 'call ' + pp.callee(org['t']).split('::')[-1]
+            else:
+                desc = None
+                bad = 'result of ' + pp.callee(org['t'])
+        elif org['k'] == 'discr':
+            desc = 'discriminant of %s' % org['ty'][:40]       # Option / TokenId tests of the eligibility chain
+            if not any(x in org['ty'] for x in ('core::option::Option', 'TokenId')):
+                desc = None
+                bad = 'discriminant of ' + org['ty']
+        elif org['k'] in ('place', 'arg'):
+            p = org.get('pl') or {'l': org.get('l')}
+            nm = Q.operand_name(body, du, {'cp': p}) if p.get('l') is not None else None
+            fields = [e['f'] for e in (p.get('p') or []) if isinstance(e, dict) and 'f' in e]
+            if nm == 'is_command_name' or (fields and fields[-1] == 'global'):
+                desc = 'flag %s' % (nm or fields[-1])
+            else:
+                bad = 'value of %s' % (nm or fields or p)
+        elif org['k'] == 'unop' and org['rv']['op'] == 'Not':
+            desc = 'negation'
+        else:
+            bad = org['k']
+        cx.site('%s: is_after_blank_ending_alias guarded by %s = %s' % (body.fn, desc or bad, lab))
+        if desc is None:
+            cx.violation(body.fn, 'extra-guard-on-blank-ending-test', 'whether a word follows a blank-ending alias value is additionally made to '
+                         'depend on %s: POSIX makes the word eligible whenever it follows such a value (state kept outside the lexer '
+                         'goes stale, e.g. across the parsers created for successive lines of a multi-line alias value)' % bad,
+                         loc=body.loc(t))
+
+
+BYTE_LEN = ['core::str::<impl str>::len', 'alloc::string::String::len']
+
+
+@RS.rule('C17.R6', 'K-CALLERS', 'the lexer buffer and source locations count characters: no byte length of text is used in the lexer core')
+def r6(cx):
+    F = cx.F
+    # positive example for the matcher: the arithmetic tokenizer (a byte-indexed lexer) does call str::len
+    pos = [1 for b in F.bodies_in(['yash_arith::token::']) for _ in Q.find_calls(b, BYTE_LEN)]
+    cx.require(pos, 'the byte-length matcher no longer matches its positive example (yash_arith tokenizer)')
+    n = 0
+    for b in F.bodies_in(['yash_syntax::parser::lex::core::', 'yash_syntax::parser::core::']):
+        n += 1
+        for blk, t in Q.find_calls(b, BYTE_LEN):
+            cx.violation(b.root, 'byte-length-in-char-indexed-lexer', 'a byte length (%s) is used in the lexer core, whose buffer indices and '
+                         'Location ranges count characters: any comparison or arithmetic with it is wrong as soon as the text contains a '
+                         'multi-byte character (e.g. an alias value with é or a U+3000 blank)' % pp.callee(t), loc=b.loc(t))
+    cx.site('lexer/parser core: %d bodies scanned for byte lengths; matcher validated on %d yash_arith sites' % (n, len(pos)))
+    cx.floor(n, 40, 'lexer core bodies')
